@@ -524,6 +524,7 @@ func (p *parser) power(lhs ast.Expression) ast.Expression {
 				Lhs:      expr,
 				Operator: ast.BIN_POW,
 				Rhs: &ast.BinaryExpr{
+					Range: lhs.GetRange(), // 1 durch degree is written as the degree alone
 					Lhs: &ast.IntLit{
 						Literal: lhs.Token(),
 						Value:   1,
